@@ -85,6 +85,28 @@ def run(module, cfg, trace_file=None, workers=16, timeout=3000, env_extra=None, 
     return res
 
 
+def run_chunked(module, cfg, rows, chunk=25000, **kw):
+    """judge a big list of event rows in several TLC runs (bounded memory / JSON size); returns (merged verdict lines, list of results)"""
+    from common import write_ndjson
+    lines, results = [], []
+    for k in range(0, max(1, len(rows)), chunk):
+        part = rows[k:k + chunk]
+        if not part:
+            continue
+        work = scratch_dir("chunk")
+        try:
+            tf = os.path.join(work, "trace.ndjson")
+            write_ndjson(tf, part)
+            res = run(module, cfg, trace_file=tf, **kw)
+        finally:
+            shutil.rmtree(work, ignore_errors=True)
+        results.append(res)
+        lines += res["lines"]
+        if res["violated"]:
+            break
+    return lines, results
+
+
 def sany(module):
     p = subprocess.run(["java", "-cp", JAR, "tla2sany.SANY", module], cwd=SPEC, capture_output=True, text=True)
     return p.returncode == 0 and "Semantic errors" not in p.stdout and "error" not in p.stdout.lower().replace("errors: 0", ""), p.stdout
